@@ -359,6 +359,8 @@ class Taint:
         if b.kind == 'obj':
             key = 'self.' + e.attr
             return (b.env or {}).get(e.attr, CLEAN())
+        if e.attr in ('dtype', 'dtypes'):
+            return CLEAN()            # the schema is public
         if e.attr in ('size', 'shape', 'ndim'):
             t = b.st or (b.frame and b.t)
             return AV(t, why=('the shape of ' + (b.reason() or 'a private frame')) if t else None)
@@ -498,6 +500,18 @@ class Taint:
         if fname in ('max', 'min', 'sum', 'abs', 'float', 'int', 'round'):
             t = any(self.iter_elem(a).anyt() if a.kind in ('list', 'dict', 'tuple') else a.anyt() for a in allv)
             return AV(t, why=why if t else None, count=all(a.count for a in allv if a.anyt()) and t and fname in ('float', 'int'))
+        if fname.split('.')[-1] == 'bincount' and fname.split('.')[0] in ('np', 'numpy') and args:
+            # histogram of a private integer column: cell counts are private; the LENGTH is public only when a public minlength
+            # fixes it (otherwise it is max(column)+1 - a function of the records)
+            ml = kws.get('minlength', args[2] if len(args) > 2 else None)
+            t = args[0].anyt() or (kws.get('weights') is not None and kws['weights'].anyt())
+            shape_private = t and (ml is None or ml.anyt())
+            if ml is not None and not ml.anyt() and t:
+                # with a public minlength the length is still max(...)+1 when a value exceeds it; values are codes below the public size
+                pass
+            return AV(t, shape_private, why=('the exact marginal `%s`' % U(e)[:50]) if t else None)
+        if fname in ('np.issubdtype', 'numpy.issubdtype'):
+            return CLEAN()        # column dtypes are part of the public schema
         if fname == 'range':
             self.sink(AV(anyt, why=why), e, mod, 'private data decides a loop bound')
             return AV(kind='list', v=CLEAN())
